@@ -84,7 +84,8 @@ def bytes_values(thorough):
 
 STR_VALUES = ["", "a", " a b ", "a&<>\"'b", "]]>", "\t", "\n", "x\ry", "\U0001F600", "1", "true", "  ", "{a}b"]
 
-QN_VALUES = [QName("a"), QName("{urn:a}b"), QName("{urn:b}c-d.e"), QName("{http://www.w3.org/2001/XMLSchema}int"), QName("_x")]
+QN_VALUES = [QName("a"), QName("{urn:a}b"), QName("{urn:b}c-d.e"), QName("{http://www.w3.org/2001/XMLSchema}int"), QName("_x"),
+             QName("{urn:a}\u00e9l\u00e9ment"), QName("\u03b1\u03b2\u03b3"), QName("{urn:b}x\u00b7y\u0300")]
 QN_MAPS = [None, {}, {"p": "urn:a"}, {"p": "urn:b", "q": "urn:a"}, {None: "urn:a"}, {"ns0": "urn:zzz"}, {"xs": "http://www.w3.org/2001/XMLSchema"},
            # a conventional prefix that the user bound to something else, and generated-looking prefixes in use
            {"xs": "urn:vendor:types"}, {"xs": "urn:vendor:types", "xsi": "urn:a"}, {"ns1": "urn:zzz", "ns0": "urn:yyy"}]
@@ -389,6 +390,42 @@ def h_enum(ch: Chooser):
     return dict(ok=True, case=case, obs=s, nontrivial=(en.__name__, mem.name, ws))
 
 
+@harness("c05.enum.candidates")
+def h_enum_candidates(ch: Chooser):
+    """Candidate lists that hold two enumerations (and optionally str at the end): the first candidate, in the given order, that
+    accepts the text on its own decides -- also when several candidates share one converter object."""
+    e1 = ch.pick(ENUMS, "enum1", True)
+    e2 = ch.pick(ENUMS, "enum2", True)
+    if e1 is e2:
+        return {"skip": True, "reason": "same enumeration twice"}
+    tail = ch.pick([None, str], "tail", True)
+    types = [e1, e2] + ([tail] if tail else [])
+    src = ch.pick([e1, e2], "member-of", True)
+    members = list(src)
+    mem = members[ch.choose(len(members), "member", True)]
+    kw = {"ns_map": {"p": "urn:a"}}
+    val = mem.value
+    r = call(converter.serialize, list(val) if isinstance(val, tuple) and not hasattr(val, "_fields") else mem, **kw)
+    if r[0] == "exc":
+        return {"skip": True, "reason": "member not serializable (c05.enum subject)"}
+    text = r[1]
+    case = {"leg": "enum-candidates", "types": [t.__name__ for t in types], "member": f"{src.__name__}.{mem.name}", "text": text}
+    exp = None
+    for t in types:
+        one = call(converter.deserialize, text, [t], **kw)
+        if one[0] == "ok":
+            exp = one
+            break
+    got = call(converter.deserialize, text, types, **kw)
+    if exp is None:
+        if got[0] == "ok":
+            return dict(ok=False, case=case, bucket="enum-candidates/accepts-what-no-candidate-accepts", detail=f"{text!r} with {case['types']} -> {got[1]!r}")
+        return dict(ok=True, case=case, obs="none", nontrivial=(e1.__name__, e2.__name__, mem.name))
+    if got[0] == "exc" or not same(got[1], exp[1]) or type(got[1]) is not type(exp[1]):
+        return dict(ok=False, case=case, bucket="enum-candidates/wrong-winner", detail=f"{text!r} with {case['types']}: got {got[1]!r}, the first accepting candidate gives {exp[1]!r}")
+    return dict(ok=True, case=case, obs=type(got[1]).__name__, nontrivial=(e1.__name__, e2.__name__, src.__name__, mem.name, tail is not None))
+
+
 @harness("c05.dt")
 def h_dt(ch: Chooser):
     v, fmt = ch.pick(DT_VALUES, "value", True)
@@ -503,7 +540,8 @@ def h_lex_binary(ch: Chooser):
 
 
 QN_FORMS = [("a", None, "a"), ("p:a", "urn:p", "a"), ("q:b-c.d", "urn:q", "b-c.d"), ("{urn:z}e", "urn:z", "e"), ("_x", None, "_x"), ("p:_x1", "urn:p", "_x1"),
-            ("d", "DEFAULT", "d")]
+            ("d", "DEFAULT", "d"), ("p:\u00e9l\u00e9ment", "urn:p", "\u00e9l\u00e9ment"), ("\u03b1\u03b2\u03b3", None, "\u03b1\u03b2\u03b3"),
+            ("q:x\u00b7y\u0300", "urn:q", "x\u00b7y\u0300")]
 QN_RMAPS = [{"p": "urn:p", "q": "urn:q"}, {"p": "urn:p", "q": "urn:q", None: "urn:dflt"}, {"p": "urn:p", "q": "urn:q", "": "urn:dflt2"}]
 
 
@@ -614,7 +652,7 @@ def run(tier: str, seed: int) -> int:
             tasks.append(("c05.value", dict(kind=kind, thorough=th, lo=lo, hi=lo + step), None, ()))
     for kind in ("bool", "str", "xml"):
         tasks.append(("c05.value", dict(kind=kind, thorough=th), None, ()))
-    for name in ("c05.qname", "c05.enum", "c05.dt", "c05.lex.special", "c05.lex.binary", "c05.lex.qname", "c05.lex.xml"):
+    for name in ("c05.qname", "c05.enum", "c05.enum.candidates", "c05.dt", "c05.lex.special", "c05.lex.binary", "c05.lex.qname", "c05.lex.xml"):
         tasks.append((name, {}, None, ()))
     for target in ("int", "float", "decimal"):
         tasks.append(("c05.lex.number", dict(target=target), None, ()))
@@ -626,7 +664,7 @@ def run(tier: str, seed: int) -> int:
     return finish(
         PROP, tier, seed, "exploration", stats, t0,
         rule=("value alphabets (all ints in [-300,300] and +-2^k+-1, floats m*10^e, Decimals with exponents -30..30, byte strings of length <=2 over "
-              "6 bytes plus lengths 3,4,57,58, QNames x prefix maps, enum members of str/int/float/QName/token-list/Decimal/date value, date/time/datetime "
+              "6 bytes plus lengths 3,4,57,58, QNames x prefix maps, enum members of str/int/float/QName/token-list/Decimal/date value, every ordered pair of those enumerations as one candidate list (with and without str after them), date/time/datetime "
               "with formats) serialized, judged against the XSD lexical space named by DataType.from_value, and read back; lexical grammars "
               "(sign x integer part x fraction x exponent x surrounding whitespace, specials, base64 spacing/padding, hex case, QName spellings) "
               "deserialized and compared with the XSD value; every ordered pair and triple of the 14 documented types x 24 texts for priority. "
